@@ -7,27 +7,36 @@ from vcheck import Inconclusive, parse_tla_state, read_ndjson, write_ndjson
 META = {
     "engine": "FilterChain",
     "level": "model_checking",
-    "text": "FilterChain.tla is a declarative reference of gRFC A36 filter chain selection for a wildcard-bound listener: four "
+    "text": "FilterChain.tla is a declarative reference of gRFC A36 filter chain selection (listener bound to the wildcard "
+            "address, or to a specific address, where the destination prefix stage keeps every chain and ties refuse the "
+            "connection): four "
             "stages without backtracking (most specific destination prefix, source type same-ip-or-loopback/external over any, "
             "most specific source prefix, exact source port over wildcard), default filter chain only when no chain survives, "
             "Ambiguous(cfg) = two chains share a complete match tuple. Abstract 4-bit addresses plus loopback, prefix lengths "
             "{0,2,4} mapped to 0.0.0.0/0, 10.0.0.a/30, /32 and ::/0, fd00::a/126, /128. TLC enumerates one state per listener "
             "configuration (0-1 chains over up to 80 match tuples, all ordered pairs over 48 (thorough: 72) tuples, pairs with "
-            "multi-prefix / IPv6 / multi-port chains, all triples over 8 (thorough: 16) tuples, with and without default chain) "
+            "multi-prefix / IPv6 / multi-port chains, all triples over 8 (thorough: 16) tuples, with and without default chain; "
+            "for specific-address listeners single chains, pairs over 18 tuples and with the multi-prefix tuples, and the triples) "
             "and checks on all 60 (thorough: 96) abstract connections that unambiguous configurations never tie and that the "
             "selected chain is a most specific match (negative "
             "control: least specific wins). Every configuration is turned into a real Listener proto, validated by the "
             "xdsresource listener decoder and looked up through server.newFilterChainManager + lookup with netip addresses "
             "derived as listenerWrapper.Accept does; TLC validates acceptance of ambiguous configurations and every selected "
             "chain against the reference.",
-    "note": "Decides exactly the enumerated (configuration, connection) pairs (quick tier: every configuration, a seeded sample "
-            "of 20 connections each; thorough: 48 of 96). Only listeners bound to the wildcard address "
-            "(destination prefixes are ignored by the code otherwise); chains dropped for unsupported match fields "
-            "(destination_port, server_names, transport/application protocols) are not generated; rejection of an unambiguous "
-            "configuration is reported as drift only (the text promises nothing about it).",
+    "note": "Decides exactly the enumerated (configuration, connection) pairs (quick tier: every configuration; wildcard "
+            "listeners a seeded sample of 20 connections each, thorough 48 of 96; specific-address listeners every connection to the "
+            "listener's own address). On a specific-address listener a result is a violation only if it agrees neither with "
+            "'destination prefixes ignored' (what the code documents) nor with 'destination prefixes always applied' (Envoy); a "
+            "genuine tie there is refused at connection time (drift). Known finding routed through KNOWN_FINDINGS.jsonl: on a "
+            "specific-address listener the lookup refuses connections whose best source prefix is filed under two destination "
+            "entries although a unique most specific chain exists. Chains dropped for unsupported match fields (destination_port, "
+            "server_names, transport/application protocols) are not generated; rejection of an unambiguous configuration is drift "
+            "only (the text promises nothing about it).",
     "technique": "TLA+ reference specification model-checked by TLC on a bounded domain; TLC-enumerated configurations replayed on "
                  "the real validation and lookup code; recorded outcomes validated by TLC",
 }
+
+SIG_SPECIFIC = "C49:specific-address-listener-same-source-prefix-under-two-destination-entries-refused"
 
 
 def run(ctx):
@@ -47,34 +56,54 @@ def run(ctx):
     lks.sort(key=lambda v: json.dumps(v, sort_keys=True))
     ctx.log("inputs from TLC: %d configurations, %d lookups" % (len(cfgs), len(lks)))
     k = ctx.pick(20, 48)       # quick tier: a seeded sample of the lookups per configuration
-    rows = [{"kind": "lks", "lks": lks}]
+    # a listener bound to a specific address (abstract address 4 = 10.0.0.4) only sees connections to that address
+    own = [i for i, lk in enumerate(lks) if lk["f"] == 4 and lk["dst"] == 4]
+    wild_rows, spec_rows = [{"kind": "lks", "lks": lks}], [{"kind": "lks", "lks": lks}]
     for c in cfgs:
-        rows.append({"kind": "cfg", "cfg": c, "li": sorted(ctx.rng.sample(range(len(lks)), min(k, len(lks))))})
-    bpath = os.path.join(ctx.run, "c49.in.ndjson")
-    tpath = os.path.join(ctx.run, "c49.trace.ndjson")
-    write_ndjson(bpath, rows)
+        if c["wild"]:
+            wild_rows.append({"kind": "cfg", "cfg": c, "li": sorted(ctx.rng.sample(range(len(lks)), min(k, len(lks))))})
+        else:
+            spec_rows.append({"kind": "cfg", "cfg": c, "li": own})
+    if len(wild_rows) < 2 or len(spec_rows) < 2 or not own:
+        raise Inconclusive("no wildcard / specific-address configurations or no lookup to the listener's own address")
     ctx.cov["behaviours_generated"] += len(cfgs)
     binary = ctx.go_build("internal/xds/server", name="c49", only=r"zz_verif_c49_")
-    ctx.driver(binary, "TestVerifC49", {"VERIF_BEHAVIOURS": bpath, "VERIF_OUT": tpath})
-    evs = read_ndjson(tpath)
-    npairs = nacc = 0
-    for e in evs:
-        if e["ev"] == "cfg":
-            key = json.dumps(e["cfg"], sort_keys=True)
-            ctx.count(key, nontrivial=len(e["cfg"]["chains"]) > 0)
-            if e["ok"]:
-                nacc += 1
-                npairs += len(e["res"])
-                ctx.cov["evaluations"] += len(e["res"])
-    for e in evs[1:: max(1, len(evs) // 3)][:3]:
-        ctx.sample(e)
-    ctx.log("driver: %d configurations, %d accepted, %d lookups" % (len(cfgs), nacc, npairs))
-    res = ctx.validate("FilterChainTrace", "FilterChainTrace.cfg", tpath, count_resets=False, timeout=3000)
-    ctx.cov["traces_validated_against_impl"] += len(cfgs)
-    if not res["accepted"]:
+    for tag, rows in (("wild", wild_rows), ("specific", spec_rows)):
+        bpath = os.path.join(ctx.run, "c49-%s.in.ndjson" % tag)
+        tpath = os.path.join(ctx.run, "c49-%s.trace.ndjson" % tag)
+        write_ndjson(bpath, rows)
+        ctx.driver(binary, "TestVerifC49", {"VERIF_BEHAVIOURS": bpath, "VERIF_OUT": tpath})
+        evs = read_ndjson(tpath)
+        npairs = nacc = 0
+        for e in evs:
+            if e["ev"] == "cfg":
+                key = json.dumps(e["cfg"], sort_keys=True)
+                ctx.count(key, nontrivial=len(e["cfg"]["chains"]) > 0)
+                if e["ok"]:
+                    nacc += 1
+                    npairs += len(e["res"])
+                    ctx.cov["evaluations"] += len(e["res"])
+        for e in evs[1:: max(1, len(evs) // 2)][:2]:
+            ctx.sample(e)
+        ctx.log("driver (%s listeners): %d configurations, %d accepted, %d lookups" % (tag, len(rows) - 1, nacc, npairs))
+        res = ctx.validate("FilterChainTrace", "FilterChainTrace.cfg", tpath, count_resets=False, timeout=3000)
+        ctx.cov["traces_validated_against_impl"] += len(rows) - 1
+        if res["accepted"]:
+            continue
         bad = evs[res["line"] - 1]
-        ctx.violation("filter chain selection: clause %s violated by %s" % (res["clause"], json.dumps(bad)[:600]),
-                      {"clause": res["clause"], "event": bad, "lookups": lks})
+        art = {"clause": res["clause"], "event": bad, "lookups": lks}
+        if res["clause"] == "C49_SpecificAddressEntriesRefused" and tag == "specific":
+            ctx.finding(SIG_SPECIFIC, "filter chain selection on a listener bound to a specific address: the lookup refuses the "
+                        "connection with 'multiple matching filter chains' although exactly one chain is the most specific match: %s"
+                        % json.dumps(bad)[:500], art)
+            # second pass: any OTHER violation among the specific-address configurations is still a violation
+            res2 = ctx.validate("FilterChainTrace", "FilterChainTraceKnown.cfg", tpath, count_resets=False, timeout=3000)
+            if not res2["accepted"]:
+                bad = evs[res2["line"] - 1]
+                ctx.violation("filter chain selection: clause %s violated by %s" % (res2["clause"], json.dumps(bad)[:600]),
+                              {"clause": res2["clause"], "event": bad, "lookups": lks})
+        else:
+            ctx.violation("filter chain selection: clause %s violated by %s" % (res["clause"], json.dumps(bad)[:600]), art)
     ctx.cov["rule"] = ("one case = one listener configuration validated by the real decoder; each accepted configuration is looked up "
                        "for every abstract connection (evaluations); every outcome is judged by TLC against FilterChain.tla")
     ctx.assumptions += ["the driver's mapping of abstract prefixes/addresses to CIDR ranges and netip addresses is faithful",
